@@ -71,7 +71,14 @@ def case_strategy(draw):
         table["pid"] = list(range(K)) + draw(st.lists(st.integers(0, K - 1), min_size=n - K, max_size=n - K))
     else:
         idx = draw(st.lists(st.integers(0, n - 1), min_size=K, max_size=K, unique=True))
-        case["centers"] = [[math.radians(ra[i]), math.radians(dec[i])] for i in idx]
+        # every centre sits on an object and the centres are pairwise well separated, so each one
+        # attracts at least that object (two coinciding centres would leave the second one empty,
+        # which the library rightly rejects)
+        keep = []
+        for i in idx:
+            if all(abs(ra[i] - ra[j]) > 1e-6 or abs(dec[i] - dec[j]) > 1e-6 for j in keep):
+                keep.append(i)
+        case["centers"] = [[math.radians(ra[i]), math.radians(dec[i])] for i in keep]
     if fault == "nonfinite":
         case["column"] = draw(st.sampled_from(["ra", "dec", "w", "z"]))
         case["value"] = draw(st.sampled_from(["nan", "inf", "-inf"]))
@@ -159,7 +166,7 @@ def run_case(case):
         kw[key] = "does_not_exist"
     elif fault == "empty_centre":
         far = [math.radians(200.0), math.radians(-60.0)]
-        centers = np.insert(centers, case["at"], far, axis=0)
+        centers = np.insert(centers, min(case["at"], len(centers)), far, axis=0)
     if centers is not None and fault != "no_patch_method":
         kw["patch_centers"] = AngularCoordinates(centers)
     if fault == "no_patch_method":
